@@ -538,6 +538,57 @@ pub fn run(ctx: &Ctx) -> i32 {
         ),
         acc,
     );
+    // attributes whose value domain is small enough to be covered completely
+    let vd = {
+        let mut specs: Vec<(String, BuildSpec)> = vec![];
+        // every permission value, given explicitly, for each of the three kinds (the sources have other permissions)
+        for (kind, mk) in [("regular", ModeSpec::Regular as fn(u16) -> ModeSpec), ("directory", ModeSpec::Dir as fn(u16) -> ModeSpec), ("symbolic link", ModeSpec::Symlink as fn(u16) -> ModeSpec)] {
+            let mut s = BuildSpec::minimal();
+            s.name = format!("all-modes-{}", kind.replace(' ', "-"));
+            s.compression = Comp::None;
+            for p in 0..0o10000u16 {
+                let mut f = FileSpec::new(&format!("/m/{:04o}", p), Content::Bytes(if kind == "regular" { b"x".to_vec() } else { vec![] }));
+                f.mode = mk(p);
+                if kind == "symbolic link" {
+                    f.symlink = Some("t".into());
+                }
+                s.files.push(f);
+            }
+            specs.push((format!("4096 {} entries, one for every permission value 0…07777 given explicitly", kind), s));
+        }
+        // every dependency kind × every constructor × names that collide with what the builder generates itself
+        for k in DEP_KINDS {
+            for ctor in ["any", "eq", "less", "less_eq", "greater", "greater_eq", "script_pre", "script_post", "script_preun", "script_postun", "rpmlib", "config", "user", "group"] {
+                for name in ["pkg", "pkg(noarch)", "rpmlib(CompressedFileNames)", "config(pkg)", "CompressedFileNames", "root", "/bin/sh", ""] {
+                    let mut s = crate::corpus::one_file();
+                    s.name = "pkg".into();
+                    s.deps.entry(k).or_default().push(DepSpec { ctor, name: name.to_string(), version: "1.0-1".into() });
+                    specs.push((format!("{}({}({:?}, 1.0-1)) on a package called pkg", k, ctor, name), s));
+                }
+            }
+        }
+        let acc = merge(par_fold(specs.len() as u64, Acc::new, |i, acc| {
+            let (what, spec) = &specs[i as usize];
+            acc.evals += 1;
+            let case = || json!({"configuration": what});
+            match catch(|| spec.build_bytes(&env)) {
+                Err(p) => acc.viol(panic_violation("value-domains", &p, case()).rank(i)),
+                Ok(Err(e)) => acc.count(&format!("not built: {}", e).chars().take(80).collect::<String>()),
+                Ok(Ok((_, bytes))) => match parse_pkg(&bytes) {
+                    Ok(Ok(p)) => {
+                        acc.nontrivial += 1;
+                        read_back("value-domains", spec, &p, i, &case, acc);
+                        acc.count("built and read back");
+                        if i % 101 == 0 {
+                            acc.sample(i, case);
+                        }
+                    }
+                    _ => acc.viol(Violation::new("value-domains", "built package is not accepted by the parser", case()).sig("clause", "reparse").rank(i)),
+                },
+            }
+        }));
+        SubReport::new("value-domains", "A", "attributes with a small value domain, covered completely: every permission value 0…07777 given explicitly for regular files, directories and symbolic links (three packages of 4096 entries; the source files have other permissions); each of the eight dependency kinds × each of the 14 Dependency constructors × 8 names that collide with what the builder generates itself (the package's own name, its arch-qualified name, rpmlib / config names, a user name, an interpreter, the empty name): read-back oracle as for the setters (a configuration the builder refuses is not judged)", acc)
+    };
     // the whole corpus (curated rich configuration with every compression / key, sign/clear histories, payload enumeration)
     let c = crate::corpus::run_corpus(ctx, "corpus", "oracle: read-back of every supplied value", &|sub, it, rank, acc| {
         if let Ok(Ok(p)) = parse_pkg(&it.bytes) {
@@ -553,7 +604,7 @@ pub fn run(ctx: &Ctx) -> i32 {
     }
     ctx.finish(
         "exploration",
-        vec![s1, c],
+        vec![s1, vd, c],
         &[
             "only supplied values are judged; defaults the builder fills in (description, group, release) are not",
             "user-supplied dependencies must appear in order as a subsequence (the builder appends its own)",
